@@ -20,6 +20,7 @@ uses a text no definition matches.
 import itertools
 
 OUTCOMES = ("pass", "fail", "error", "pending", "undefined", "skip", "kbi", "abort")
+# + "convert": a typed parameter whose converter raises (used by C02 only)
 NONPASS = OUTCOMES[1:]
 PTAG = "<tg>"          # parametrised outline tag; the row supplies the value in column "tg"
 
@@ -51,6 +52,8 @@ def O2(blocks, tags=(), ncols=1):
 def step_text(sid, outcome):
     if outcome == "undefined":
         return "nodef %d thing" % sid
+    if outcome == "convert":
+        return "step %d convert zz" % sid
     return "step %d %s" % (sid, outcome)
 
 
@@ -265,7 +268,7 @@ def render(feature, fi=0, indent="  ", language=None):
                     cols = ["o%d" % c for c in range(ncols)] + (["tg"] if has_ptag else [])
                     emit("%s| %s |" % (ind + indent * 3, " | ".join(cols)))
                     for row in rows:
-                        cells = [("nodef" if v == "undefined" else v) for v in row]
+                        cells = [("nodef" if v == "undefined" else "convert zz" if v == "convert" else v) for v in row]
                         meta["lines"][p + (ri,)] = emit("%s| %s |" % (ind + indent * 3, " | ".join(cells)))
                         ri += 1
             else:
